@@ -10,7 +10,7 @@ pub mod shared;
 
 pub fn exec(verb: &str, items: &[Sexp], o: &mut Oracle) -> Option<String> {
     if !verb.starts_with("pb") { return None; }
-    shared::rtverbs::exec(verb, items, o).or_else(|| shared::adv::exec(verb, items, o)).or_else(|| shared::msgverbs::exec(verb, items, o))
+    shared::rtverbs::exec(verb, items, o).or_else(|| shared::adv::exec(verb, items, o)).or_else(|| shared::refcodec::exec(verb, items, o)).or_else(|| shared::msgverbs::exec(verb, items, o))
 }
 
 pub fn gen(stream: &str, tier: &str, seed: u64, out: &mut dyn Write) -> bool {
@@ -19,6 +19,7 @@ pub fn gen(stream: &str, tier: &str, seed: u64, out: &mut dyn Write) -> bool {
     let mut lines = vec![];
     match stream {
         "C05" => { shared::rtverbs::gen_scalar_level(&mut r, thorough, &mut lines); shared::msgverbs::gen_message_level(&mut r, thorough, &mut lines); shared::adv::gen_wrappers(&mut r, thorough, &mut lines); }
+        "C06" => { shared::refcodec::gen_spec_level(&mut r, thorough, &mut lines); }
         "C18" => { shared::msgverbs::gen_merge_level(&mut r, thorough, &mut lines); }
         "C10" => { shared::adv::gen_adversarial(&mut r, thorough, &mut lines); }
         _ => return false,
